@@ -23,10 +23,11 @@ type c13cfg struct {
 	refused []int    // per loss: dials refused before the server accepts again
 	attempt []string // per loss: ok | transient (close after features once, then ok) | permanent (auth failure)
 	stop    bool     // Stop at the end
+	slowPost bool    // the PostConnect callback takes 5 s (e.g. it waits for a roster answer)
 }
 
 func (c c13cfg) name() string {
-	return fmt.Sprintf("sm=%v/faults=%s/refused=%v/attempt=%s/stop=%v", c.sm, strings.Join(c.faults, ","), c.refused, strings.Join(c.attempt, ","), c.stop)
+	return fmt.Sprintf("sm=%v/faults=%s/refused=%v/attempt=%s/stop=%v/slowpost=%v", c.sm, strings.Join(c.faults, ","), c.refused, strings.Join(c.attempt, ","), c.stop, c.slowPost)
 }
 
 func c13body(cfg c13cfg) func() {
@@ -105,7 +106,13 @@ func c13body(cfg c13cfg) func() {
 			return
 		}
 		postConnects := 0
-		mgr := NewStreamManager(cl, func(s Sender) { postConnects++; vrt.Log("postconnect #%d", postConnects) })
+		mgr := NewStreamManager(cl, func(s Sender) {
+			postConnects++
+			vrt.Log("postconnect #%d", postConnects)
+			if cfg.slowPost && postConnects > 1 {
+				vrt.Sleep(5 * time.Second)
+			}
+		})
 		runReturned := false
 		var runErr error
 		vrt.Go("run", func() {
@@ -173,6 +180,16 @@ func c13body(cfg c13cfg) func() {
 			switch fault {
 			case "drop":
 				sc.close()
+			case "drop-then-drop-during-postconnect":
+				// the connection drops; the client reconnects at once and its PostConnect callback is
+				// still running when the new connection drops too
+				sc.close()
+				vrt.Sleep(time.Second)
+				if n := sessions(); len(n) > nSess {
+					conns[n[len(n)-1]].close()
+					nSess++ // that short-lived session is expected
+					nPC++
+				}
 			case "drop-after-stanza":
 				sc.send("<message from='peer@example.org' id='last'><body>bye</body></message>")
 				sc.close()
@@ -285,6 +302,8 @@ func TestVerifC13(t *testing.T) {
 			}
 		}
 		add(c13cfg{sm: sm, stop: true})
+		add(c13cfg{sm: sm, faults: []string{"drop-then-drop-during-postconnect"}, refused: []int{0}, attempt: []string{"ok"}, stop: true, slowPost: true})
+		add(c13cfg{sm: sm, faults: []string{"drop", "drop-then-drop-during-postconnect"}, refused: []int{0, 0}, attempt: []string{"ok", "ok"}, stop: true, slowPost: true})
 	}
 	if hx.Main("C13", scs) == 2 {
 		t.Fatal("internal error")
